@@ -17,6 +17,9 @@ L4 == {"ok1", "ok2", "self", "other"}
 L5 == {"ok1", "ok2", "self", "other", "raise"}
 N1 == {"EVA"}
 N2 == {"EVA", "EVB"}
+K2 == {"plain", "cb"}
+K3 == {"plain", "cb", "retry"}
+K4 == {"plain", "cb", "retry", "chain"}
 NoDev == {}
 DevLeak == {"c02_cb_leak"}
 DevSkip == {"c02_skip"}
